@@ -8,6 +8,7 @@ import DesyncModel.Tables
 import DesyncModel.FactFifo
 import DesyncModel.FactSyncFuture
 import DesyncModel.Inv.Holder
+import DesyncModel.Inv.HolderReach
 
 namespace Desync.C01
 open Desync Gen
@@ -51,7 +52,22 @@ theorem fifo_operations_only : queueOps = queueOpsExpected := queueOps_only_fifo
 (`task_finished`) releases the queue to the next operation -/
 theorem future_sync_destroyed_before_release : syncFutureFields = ["state", "scheduler_future", "task_finished"] := syncFuture_drop_order
 
-/-- In the initial state the holder invariant holds (the inductive step is proved in Inv/HolderStep). -/
-theorem holder_invariant_init (nq ng max : Nat) : HolderInv (initState nq ng max) := holderInv_init nq ng max
+/-- **The run right is exclusive in every reachable state** (any number of objects, threads and calls,
+any pool size, any interleaving): the program counters of two different activities never both lie in
+the region of the code that may dequeue, run, poll or requeue jobs of the same queue or set its
+state directly.  (Proved by induction over all model steps: Inv/HolderStep, Inv/HolderReach.) -/
+theorem run_right_is_exclusive {s : State} (hr : Reachable s) (a b q : Nat)
+    (ha : (s.pcAt a).holds q = true) (hb : (s.pcAt b).holds q = true) : a = b :=
+  run_right_exclusive hr a b q ha hb
+
+/-- In every reachable state the owner recorded for a queue is exactly the activity inside that
+region, and a queue that has an owner is in one of the states `running`, `awokenWhileRunning`,
+`waitingForUnpark` — the states from which no table grants the run right (`held_state_never_claimed`). -/
+theorem holder_invariant {s : State} (hr : Reachable s) : HolderInv s := holderInv_reachable hr
+
+/-- non-vacuity: a concrete reachable state in which an activity owns a queue -/
+example : ∃ s, Reachable s ∧ ∃ a q, (s.pcAt a).holds q = true := by
+  refine ⟨_, Reachable.step (.act 0) (Reachable.step (.invoke 1 none (.sync 0)) (Reachable.init 1 0 1) rfl) rfl, 0, 0, ?_⟩
+  decide
 
 end Desync.C01
